@@ -289,12 +289,55 @@ def emit(w, group, desc, ids, map_ids, inplace, tags):
     return impl
 
 
+def execute_preset(desc, ids, target, path, value):
+    """Put `value` as basis_id on the placeholder at data index `target` (through the setter, or by constructing a
+    replacement gate); when that is accepted, go on with decompose_qpd_instructions(map_ids omitted)."""
+    qc, bases = build(desc)
+    ctx = CircCtx()
+    cin = ctx.canon_circuit(qc)
+    nc = qc.num_clbits
+    it = desc["items"][target]
+    inst = qc.data[target]
+    gate = inst.operation
+
+    def attempt():
+        if path == "setter":
+            gate.basis_id = value
+            return gate
+        if it[0] == "qpd2":
+            return TwoQubitQPDGate(bases[it[1]], basis_id=value, label=it[3])
+        return SingleQubitQPDGate(bases[it[1]], it[2], basis_id=value, label=it[4])
+
+    r = call_canon(attempt)
+    impl = dict(status=r[0], detail=None if r[0] == "ok" else r[1], after=None)
+    if r[0] == "ok":
+        if path == "ctor":
+            qc.data[target] = inst.replace(operation=r[1])
+        impl["stored_basis_id"] = qc.data[target].operation.basis_id
+        r2 = call_canon(decompose_qpd_instructions, qc, ids)
+        after = dict(status=r2[0], detail=None if r2[0] == "ok" else r2[1], out=None, regsize=None, untouched=True)
+        if r2[0] == "ok":
+            after["out"] = ctx.canon_circuit(r2[1])
+            after["regsize"] = r2[1].cregs[-1].size
+        impl["after"] = after
+    benv = ctx.canon_benv()
+    b = cin[target]["op"][1]
+    canon = dict(input=cin, nc=nc, benv=benv, handle=b, nmaps=len(benv[b]))
+    return canon, impl
+
+
+def coq_preset_case(canon, value, impl):
+    exp = Res("ok", Raw("tt")) if impl["status"] == "ok" else Res(impl["status"])
+    return (coq_benv(canon["benv"]), canon["handle"], Zc(value), exp)
+
+
 def generate(rng, tier, outdir):
-    w = CaseWriter(outdir, IMPORTS, case_types={"chk_decompose": "c14_case"})
+    w = CaseWriter(outdir, IMPORTS, case_types={"chk_decompose": "c14_case", "chk_preset": "c14_preset_case"})
     n_valid = 420 if tier == "quick" else 9000
     n_omit = 160 if tier == "quick" else 3000
     n_bad = 260 if tier == "quick" else 5000
     n_stale = 60 if tier == "quick" else 1000
+    n_preset = 150 if tier == "quick" else 3000
 
     # ---- valid requests with explicit in-range map choices ----
     for _ in range(n_valid):
@@ -442,6 +485,32 @@ def generate(rng, tier, outdir):
         emit(w, "definition_read_before", desc, ids, map_ids, inplace, dict(preset=pm, inplace=inplace, n_read=len(pre)))
         made += 1
 
+    # ---- the choice is made on the gate itself: basis_id through the setter / the constructors ----
+    made = 0
+    while made < n_preset:
+        desc, ids, nmaps, pm = gen_valid(rng, preset_mode="all", n_units=int(rng.integers(1, 4)))
+        phs = [i for i, it in enumerate(desc["items"]) if is_ph(it)]
+        target = phs[int(rng.integers(0, len(phs)))]
+        k = next(j for j, g in enumerate(ids) if target in g)
+        nm = nmaps[k]
+        cls = ["in_range", "too_large", "negative", "negative"][int(rng.integers(0, 4))]
+        if cls == "in_range":
+            value = int(rng.integers(0, nm))
+        elif cls == "too_large":
+            value = nm + int(rng.integers(0, 3))
+        else:
+            value = -int(rng.integers(1, nm + 2))       # -1 .. -(len(maps)+1); Python indexing accepts -1 .. -len(maps)
+        path = ["setter", "ctor"][int(rng.integers(0, 2))]
+        canon, impl = execute_preset(desc, ids, target, path, value)
+        case = dict(kind="preset", stream="preset", desc=desc, ids=ids, target=target, path=path, value=value, canon=canon, impl=impl)
+        w.add("preset", "chk_preset", coq_preset_case(canon, value, impl), case, nontrivial=True)
+        w.count("preset.class", cls)
+        w.count("preset.path", path + ":" + desc["items"][target][0])
+        w.count("preset.outcome", impl["status"])
+        if impl["after"] is not None:
+            w.count("preset.then_decompose", impl["after"]["status"])
+        made += 1
+
     return w.finish(
         rule="random circuits on 1..4 qubits, 0..2 clbits, 0..6 ordinary instructions (1q/2q gates, measure, reset, barrier, "
         "pre-existing qpd_measure) interleaved with 0..4 decompositions (TwoQubitQPDGate / two SingleQubitQPDGate halves sharing "
@@ -449,7 +518,8 @@ def generate(rng, tier, outdir):
         "QPDBasis.from_instruction(cx, cz, swap, Move, rzz(1/2), rzz(3/4)) and five hand-made bases with empty op lists; group order "
         "and id order inside pairs shuffled; basis_id preset none/all/mixed; inplace False/True. Streams: valid (random in-range "
         "map_ids), omitted (map_ids=None), malformed (12 mutation classes incl. negative map ids), definition_read_before (Instruction._definition cache "
-        "filled before the call). distinct = distinct Coq case literal; non-trivial = successful call with >=1 placeholder, or a "
+        "filled before the call), preset (an in-range / too large / negative basis_id put on one placeholder through the setter or a "
+        "constructor, then decompose with map_ids omitted). distinct = distinct Coq case literal; non-trivial = successful call with >=1 placeholder, or a "
         "non-Ok outcome in the non-valid streams"
     )
 
@@ -508,7 +578,34 @@ def _impl_out(impl):
     return [(_opkey(d["op"]), tuple(d["qs"]), tuple(d["cs"])) for d in impl["out"]]
 
 
+def judge_preset(case):
+    canon, impl, value = case["canon"], case["impl"], case["value"]
+    st = impl["status"]
+    how = f"basis_id={value} via {case['path']} on data[{case['target']}] ({canon['nmaps']} maps)"
+    if not (0 <= value < canon["nmaps"]):
+        if st == "refused":
+            return dict(violates=False, detail=how + ": out of range and refused")
+        then = ""
+        if impl.get("after"):
+            a = impl["after"]
+            then = f"; decompose_qpd_instructions(map_ids omitted) then answered {a['status']}" + (
+                f" with {[d['op'][:3] + [d['qs']] for d in a['out']]}" if a["status"] == "ok" else f" ({a['detail']})")
+        return dict(violates=True, detail=how + f": an out-of-range choice was not refused (outcome {st}: {impl.get('detail')}; "
+                                                f"stored basis_id {impl.get('stored_basis_id')})" + then)
+    if st != "ok":
+        return dict(violates=True, detail=how + f": an in-range choice was answered with {st}: {impl.get('detail')}")
+    # accepted in-range choice: the decomposition that follows must be the direct splice with that choice
+    cin = [dict(d, op=list(d["op"])) for d in canon["input"]]
+    op = cin[case["target"]]["op"]
+    op[2 if op[0] == "qpd2" else 3] = value
+    sub = dict(canon=dict(input=cin, benv=canon["benv"], nc=canon["nc"]), ids=case["ids"], map_ids=None, inplace=True, impl=impl["after"])
+    v = judge(dict(sub, kind="decompose"))
+    return dict(violates=v["violates"], detail=how + ": accepted; then " + v["detail"])
+
+
 def judge(case):
+    if case.get("kind") == "preset":
+        return judge_preset(case)
     cin, benv, nc = case["canon"]["input"], case["canon"]["benv"], case["canon"]["nc"]
     ids, maps, impl, inplace = case["ids"], case["map_ids"], case["impl"], case["inplace"]
     n = len(cin)
@@ -566,6 +663,9 @@ def judge(case):
 
 
 def rerun(case):
+    if case.get("kind") == "preset":
+        case["canon"], case["impl"] = execute_preset(case["desc"], case["ids"], case["target"], case["path"], case["value"])
+        return case
     canon, impl, _ = execute(case["desc"], case["ids"], case["map_ids"], case["inplace"])
     case["canon"] = canon
     case["impl"] = impl
